@@ -87,7 +87,10 @@ func (obj JsonWebEncryption) computeAuthData() []byte {
 	var protected string
 
 	if obj.original != nil {
-		protected = obj.original.Protected.base64()
+		// The protected header is optional in the JSON serialization.
+		if obj.original.Protected != nil {
+			protected = obj.original.Protected.base64()
+		}
 	} else {
 		protected = base64URLEncode(mustSerializeJSON((obj.protected)))
 	}
